@@ -22,6 +22,21 @@ Theorem C02_sound_labels_partial :
 Proof. exact assemble_labels_sound. Qed.
 Print Assumptions C02_sound_labels_partial.
 
+(* ... all clauses of Denotes except the wflip clause (stmt_ok_static = stmt_ok with `True` for wflip statements): for
+   every program the model (= the current code, strict_range = true) assembles, the statement addresses are defined,
+   labels have the address of the next statement, each op's two words hold its expressions' values, reserved ranges
+   are inside a segment and read zero, segments are loadable (pairwise disjoint, word-pair aligned, in range).
+   Guards: F17 (lexical_labels), F18 (reserves_nonneg). *)
+Theorem C02_sound_static_partial :
+  forall ww ver P segs words lbls,
+    assemble_model ww ver true P = Ok (segs, words, lbls) ->
+    lexical_labels P = true -> reserves_nonneg ww P lbls = true ->
+    exists L, place ww (lookup lbls) P 0 = Some L
+              /\ loadable_segs ww segs = true
+              /\ Forall (stmt_ok_static ww (image_of segs words) L lbls) L.
+Proof. exact assemble_static_sound. Qed.
+Print Assumptions C02_sound_static_partial.
+
 (* ... and: whatever is emitted is a list of well-formed, pairwise disjoint, in-range, word-pair aligned segments
    (an overlapping / misaligned / out-of-range segment never reaches an image) *)
 Theorem C02_rejects_segments_partial :
@@ -63,13 +78,22 @@ Definition witness (ww ver : N) (P : list stmt) : Prop :=
     assemble_model ww ver true P = Ok (segs, words, lbls)
     /\ check_denotes ww (image_of segs words) P lbls = false.
 
-(* F16: a chain op in the pad hole at 2w, the op that holds the input cell *)
+(* F16 (fixed in /repo by 435c753): the pad hole at 2w, the op that holds the input cell, is no longer handed to a wflip
+   chain: the three chain ops go to the holes at 6w, 4w and then to the wflip area, and the image is the denotation *)
 Definition prog_F16 : list stmt :=
   [SFlipJump (EInt 0) (ELbl "start") ps; SPad (EInt 4) ps; SLabel "start" ps;
    SWordFlip (ELbl "t") (EInt 15) (ELbl "done") ps; SLabel "done" ps; SFlipJump (EInt 0) (ELbl "done") ps;
    SLabel "t" ps; SFlipJump (EInt 0) (EInt 0) ps].
-Example C02_sound_refuted_F16 : witness 4 0 prog_F16 /\ aux_on_io 4 [(":wflips:2", 32%Z)] = true.
-Proof. split; [|reflexivity]. eexists. eexists. eexists. split; vm_compute; reflexivity. Qed.
+Example C02_F16_fixed :
+  exists segs words lbls,
+    assemble_model 4 0 true prog_F16 = Ok (segs, words, lbls)
+    /\ lookup lbls ":wflips:2" = Some 224%Z /\ aux_on_io 4 lbls = false
+    /\ Denotes 4 (image_of segs words) prog_F16 lbls.
+Proof.
+  eexists. eexists. eexists. split; [vm_compute; reflexivity|].
+  split; [vm_compute; reflexivity|]. split; [vm_compute; reflexivity|].
+  apply check_denotes_sound. vm_compute. reflexivity.
+Qed.
 
 (* F17: the label `_.wflip_area_start_0` is overwritten by the first `segment` *)
 Definition prog_F17 : list stmt :=
